@@ -841,13 +841,55 @@ def _o_orders_lock(w):
                 return False, f"grouping {t} accepted what the flat combine refuses"
             if res[t] is not None and res[t] not in outs:
                 return False, f"grouping {t} gives another result than the flat combine"
-        return True, f"{len(exprs)} orders"
+        # the characterisation proved as Props.C11.combine_bracket / combine_bracket_accepted_iff, at EVERY node of
+        # every bracketing: a node whose children were all accepted is accepted iff the flat combine of its leaves is
+        nodes = 0
+        for t in nested:
+            bad = _node_verdicts(t, ps)
+            nodes += 1
+            if bad:
+                return False, f"grouping {t}: {bad}"
+        return True, f"{len(exprs)} orders, {nodes} nestings: a node is refused only where the flat combine of its leaves is"
     if True in facc:
         bad = [t for t in nested if res[t] is None]
         if bad:
             return False, (f"combine of all {len(ps)} operands at once is accepted, grouping {bad[0]} is refused "
                            f"({len(bad)} of {len(nested)} groupings)")
     return True, "acceptance does not depend on the grouping here"
+
+
+def _leaves(t):
+    return [x for c in t for x in _leaves(c)] if isinstance(t, tuple) else [t]
+
+
+def _node_verdicts(t, ps):
+    """None, or the first node (children all accepted) whose verdict differs from the flat combine of its leaves."""
+    def ev(t):
+        if not isinstance(t, tuple):
+            return ps[t], None
+        kids = []
+        for c in t:
+            r, bad = ev(c)
+            if bad:
+                return None, bad
+            if r is None:
+                return None, None           # an inner refusal: nothing to say about this node
+            kids.append(r)
+        try:
+            flat = combine([ps[i] for i in _leaves(t)])
+        except BTClibValueError:
+            flat = None
+        try:
+            r = combine(kids)
+        except BTClibValueError:
+            r = None
+        if (r is None) != (flat is None):
+            return None, (f"node {t} (children accepted) is {'refused' if r is None else 'accepted'}, the flat combine of "
+                          f"its leaves is {'refused' if flat is None else 'accepted'}")
+        if r is not None and (r.serialize(), render(r)) != (flat.serialize(), render(flat)):
+            return None, f"node {t} gives another psbt than the flat combine of its leaves"
+        return r, None
+    return ev(t)[1]
 
 
 def _lock3():
